@@ -196,6 +196,12 @@ class Arr:
             return Arr([list(r) for r in zip(*self.data)])
         return self
 
+    def __iter__(self):
+        return iter([Arr(x) if isinstance(x, list) else x for x in self.data])
+
+    def __len__(self):
+        return len(self.data)
+
     def __repr__(self):
         return f"Arr({self.data})"
 
@@ -811,6 +817,14 @@ class Evaluator:
                 o[k] = v
             elif isinstance(o, Arr) and isinstance(k, int):
                 o.data[k] = v
+            elif isinstance(o, Arr) and isinstance(k, tuple) and all(isinstance(i, int) for i in k):
+                d = o.data
+                try:
+                    for i in k[:-1]:
+                        d = d[i]
+                    d[k[-1]] = v
+                except (IndexError, TypeError):
+                    raise Raised("IndexError", f"index {k} out of bounds", t)
             else:
                 raise Undecided(f"subscript store on {type(o).__name__}")
         elif isinstance(t, ast.Starred):
